@@ -12,6 +12,8 @@ MODULES = {
               types={'self._n_wavelength': 'list', 'self._n': 'list'}),
          dict(name='mat_k', file=MF, cls='MaterialFile', func='k', requires=_R,
               types={'self._k_wavelength': 'list', 'self._k': 'list'}),
+         dict(name='abbe_n', file='optiland/materials/abbe.py', cls='AbbeMaterial', func='n', requires=_R,
+              types={'self._p': 'list'}),
          dict(name='abbe', file=BM, cls='BaseMaterial', func='abbe', fun_calls=['self.n'], requires=_R)]
     ),
 }
